@@ -13,7 +13,7 @@
    increasing across row groups.  How pandas computes max()/min() of a Series and how a DataFrame cell
    maps to its physical value are NOT modelled (trusted glue, exercised by the oracle run).            *)
 From Coq Require Import NArith ZArith List Bool.
-From Pq Require Import Base.Bytes Impl.Stats Proofs.StatsProofs.
+From Pq Require Import Base.Bytes Impl.Stats Proofs.StatsProofs Format.Utf8 Proofs.Utf8Proofs.
 Import ListNotations.
 
 Theorem C04_minmax_exact : forall o : ordk, minmax_exact_statement N (leb_of o) (ordered_of o).
@@ -69,6 +69,14 @@ Theorem C04_user_view : forall t v, wf_val t v ->
   exists b, enc_stat t v = Some b /\ dec_stat t b = Some v.
 Proof. exact stat_roundtrip. Qed.
 Print Assumptions C04_user_view.
+
+(* the Parquet order of a UTF8 column (byte-wise lexicographic on the encoded text) IS the order in which Python/pandas
+   compare str (lexicographic on code points): the bounds pandas computes on the text are the bounds of the stored bytes *)
+Theorem C04_utf8_order : forall a b : list N,
+  Forall (fun c => c < 0x110000)%N a -> Forall (fun c => c < 0x110000)%N b ->
+  lex_leb (utf8_encode a) (utf8_encode b) = lex_leb a b.
+Proof. exact utf8_order. Qed.
+Print Assumptions C04_utf8_order.
 
 Theorem C04_sorted_columns_sound : forall o (gs : list (rg N)),
   Forall (bounds_ok N (leb_of o)) gs ->
